@@ -55,7 +55,7 @@ def decExt (j : Json) : R Ext := do
       return (name, args, res)
     else throw "ext triple expected")
   return fun f vs =>
-    match entries.find? (fun e => e.1 == f && PV.beqL e.2.1 vs) with
+    match entries.find? (fun e => e.1 == f && PV.sameL e.2.1 vs) with
     | some e => e.2.2
     | none => .error (.missingExt f)
 
@@ -93,6 +93,15 @@ def opPyEval (j : Json) : R Json := do
     | .error (.missingExt f), _ => throw s!"no external result for {f}"
     | .error e, _ => return Json.mkObj [("err", e.kind)]
     | _, .error e => return Json.mkObj [("err", e.kind)]
-  | _ => return encPyResult (callFn ext' f args)
+  | _ =>
+    -- free variables of a loop taken out of its function are supplied as an initial environment
+    let envJ := arrD j "env"
+    if envJ.isEmpty then return encPyResult (callFn ext' f args)
+    let env ← envJ.toList.mapM (fun e => do
+      let a ← e.getArr?
+      if h : a.size = 2 then return (← a[0].getStr?, ← decPV a[1]) else throw "env pair expected")
+    match exec ext' f.body { env := env } with
+    | .ok (_, st) => return encPyResult (.ok (.list st.out))
+    | .error e => return encPyResult (.error e)
 
 end Df.Ops
